@@ -8,10 +8,10 @@ REQ = ["NewColl", "FromMembers", "FromMembersRefused", "Create", "AddMember", "A
        "CopyColl", "JsonRoundTrip", "FillMember", "NormalizeAll", "NormalizeBins", "Eq"]
 
 
-def run_part(ctx, tier, label="collection"):
+def run_part(ctx, tier, label="collection", quick_combos=2, quick_budget=40000):
     if tier == "thorough":
         ctx.model_check("MC_Collection_t", dump=False)        # up to three members, one more call: TLC only (a million states)
     _res, g = ctx.model_check("MC_Collection_q", required_actions=REQ)
-    combos = [("dyadic", 0), ("ulp", 1)] if tier == "quick" else [("dyadic", 0), ("ulp", 1), ("neg", 0)]
+    combos = [("dyadic", 0), ("ulp", 1)][:quick_combos] if tier == "quick" else [("dyadic", 0), ("ulp", 1), ("neg", 0)]
     for pe, sp in combos:
-        ctx.replay(g, CollectionAdapter(POS[pe], spelling=sp), VIEW, label=f"{label}:{pe}/sp{sp}", edge_budget=40000 if tier == "quick" else 200000)
+        ctx.replay(g, CollectionAdapter(POS[pe], spelling=sp), VIEW, label=f"{label}:{pe}/sp{sp}", edge_budget=quick_budget if tier == "quick" else 200000)
